@@ -60,7 +60,10 @@ function getPathAndLine (sourceMap, filename, line, column) {
       const filePath = getFilePathFromName(filename)
       const { originalSource, originalLine, originalColumn } = sourceMap.findEntry(line - 1, column - 1)
       return {
-        path: path.join(filePath, originalSource),
+        // a source given as an absolute path or as a URL (webpack://...) is not relative to the file
+        path: path.isAbsolute(originalSource) || /^[a-zA-Z][a-zA-Z0-9+.-]*:\/\//.test(originalSource)
+          ? originalSource
+          : path.join(filePath, originalSource),
         line: originalLine + 1,
         column: originalColumn + 1
       }
